@@ -1,5 +1,7 @@
 package ring
 
+import "math/big"
+
 // C01-4 (algebraic slot model): Ring-level methods dispatch every limb to its own modulus and constants, touch only
 // the limbs of the current level, and compute the documented ring operation.  Every coefficient is an atom (a free
 // element of Z_{q_k}); the scalar kernels act through their C01-1 contracts; the vector kernels, SubRing and Ring
@@ -84,6 +86,34 @@ func VerifH_C01_RingAlgebra() {
 			r.SubScalar(a, sc, o1)
 			r.Sub(a, cst, o2)
 			vAssertPolyEq(r, o1, o2, tag+"-SubScalar")
+		}
+		// big-integer scalars, negative ones and ones beyond the product of the moduli included: they act through their
+		// (non-negative) residue modulo every prime
+		hugeS, _ := new(big.Int).SetString("-123456789012345678901234567890123", 10)
+		for si, bs := range []*big.Int{big.NewInt(5), big.NewInt(-5), big.NewInt(-1 << 62), hugeS, new(big.Int).Neg(hugeS)} {
+			tag := "Ring-bigint-scalar" + string(rune('0'+si))
+			cst, cm := r.NewPoly(), r.NewPoly()
+			for k, sub := range r.SubRings[:level+1] {
+				res := new(big.Int).Mod(bs, new(big.Int).SetUint64(sub.Modulus)).Uint64()
+				for i := range cst.Coeffs[k] {
+					cst.Coeffs[k][i] = res
+				}
+			}
+			r.MForm(cst, cm)
+			o1, o2 := r.NewPoly(), r.NewPoly()
+			r.AddScalarBigint(a, bs, o1)
+			r.Add(a, cst, o2)
+			vAssertPolyEq(r, o1, o2, tag+"-AddScalarBigint")
+			r.SubScalarBigint(a, bs, o1)
+			r.Sub(a, cst, o2)
+			vAssertPolyEq(r, o1, o2, tag+"-SubScalarBigint")
+			r.MulScalarBigint(a, bs, o1)
+			r.MulCoeffsMontgomery(a, cm, o2)
+			vAssertPolyEq(r, o1, o2, tag+"-MulScalarBigint")
+			o1.Copy(b)
+			r.MulScalarBigintThenAdd(a, bs, o1)
+			r.Add(b, o2, o2)
+			vAssertPolyEq(r, o1, o2, tag+"-MulScalarBigintThenAdd")
 		}
 		// multiplication by X^k in Z[X]/(X^N+1) for every residue of k modulo 2N and beyond (negative, multiples of N)
 		n := r.N()
